@@ -118,8 +118,8 @@ def validate_witness(P, e, site):
         return None if not extra else "new caller(s) %s" % extra
     if kind == "fact":
         # a dominating path fact (rendered) must still be present
-        rendered = {" ".join(map(str, f[1:])) for f in site.facts}
-        return None if w["fact"] in rendered else "dominating guard `%s` is gone (facts: %s)" % (w["fact"], sorted(rendered)[:6])
+        rendered = {census.norm_text(site.tymap, " ".join(map(str, f[1:]))) for f in site.facts}
+        return None if census.norm_text(site.tymap, w["fact"]) in rendered else "dominating guard `%s` is gone (facts: %s)" % (w["fact"], sorted(rendered)[:6])
     if kind == "body_contains":
         b = P.fn(site.fn)
         okc = ir.contains(b["body"], lambda y: (y.get("q") or "").endswith(w["callee"]) or y.get("name") == w["callee"])
